@@ -5,7 +5,7 @@ Arrays.allocate / varptr / get_memory / view_buffer / set.
 """
 from symx.runner import Case
 from .common import *
-from .c12 import StubSeg
+from .c12 import StubSeg, body_history, body_index
 
 ORACLE = ('reference layout: variables in creation order, each a record of 1 + max(3, len(name)) '
           'header bytes followed by its value bytes; PEEK at any address of the area returns the header '
@@ -14,6 +14,9 @@ BOUNDS = {'scalars': 'up to 3 variables chosen from a menu of names of length 2.
                      'symbolic values (all bit patterns), symbolic PEEK address over the whole area',
           'arrays': 'one or two arrays of 1..2 dimensions with bounds <= 2, symbolic element contents, '
                     'symbolic subscripts and PEEK address',
+          'erase': 'three arrays (1-3 dimensions, names up to 41 characters) with symbolic sizes and contents, ERASE of '
+                   'one of them: the others keep contents, records stay contiguous, PEEK at VARPTR follows; index '
+                   'arithmetic of 3-dimensional arrays injective (shared with C12)',
           'outside': 'string space contents behind string pointers (C10), VARPTR$, SWAP, garbage collection, '
                      'the DataSegment dispatch between scalar, array and string areas'}
 ASSUMPTIONS = ['z3 decides the formulas', 'symx models validated per path',
@@ -154,4 +157,15 @@ def cases(tier):
     for s in specs:
         cs.append(Case('arrays-' + '-'.join('%s%s' % (n.decode(), 'x'.join(map(str, d))) for n, d in s),
                        body_arrays, params={'arrays': s}, max_fanout=200))
+    # element addresses after ERASE (records shift down; PEEK at VARPTR must follow) and distinct
+    # elements of 3-dimensional arrays: the harness bodies are shared with C12
+    cs.append(Case('erase-layout', body_history, params={'which': 'erase-layout'}))
+    cs.append(Case('erase-layout-2d-3d', body_history,
+                   params={'which': 'erase-layout', 'names': [b'A!', b'M%', b'C#'], 'ndims': [1, 2, 3]}))
+    cs.append(Case('erase-layout-long-names', body_history,
+                   params={'which': 'erase-layout', 'ndims': [2, 1, 1],
+                           'names': [b'A234567890123456789012345678901234567890%',
+                                     b'B23456789012345678901234567890123456789!', b'C#']}))
+    cs.append(Case('elements-distinct-3d', body_index, backend='INT', params={'n': 3}, timeout_s=3000,
+                   query_timeout_ms=900000))
     return cs
